@@ -175,6 +175,7 @@ fn start_generated(p: &mut Prng, arch: Arch) -> Start {
             rel.extend_from_slice(&[0x1000, begin as u64, begin as u64 + 0x10]);
             let image_base: u64 = *p.pick(&[0x1_4000_0000u64, 0x40_0000]);
             let base_svma = *p.pick(&[0x1_4000_0000u64, 0]);
+            crate::pe::pad_chains(p, &mut specs, true);
             let image = crate::pe::write_pe(&specs, 0x1000);
             let end = image_base + begin as u64 + 0x40;
             Start { format: "pe", arch, range: image_base + 0x1000..end, base_avma: image_base, raw: RawSections::from_provider(crate::pe::PeSectionInfo { base_svma, image }), rel }
